@@ -199,9 +199,10 @@ def scan_assumptions(genpath):
     return inv, sorted(set(items)), sorted(set(ext))
 
 
-def process_unit(unit, seed=None, rlimit=None, reseed=0):
+def process_unit(unit, seed=None, rlimit=None, reseed=0, inline=None):
     """Extract + verify one unit.  Returns a dict with status in {'ok','failed','undecided'}."""
-    r = dict(unit=unit, status='ok', failures=[], undecided=[], functions={}, labels={}, meta=None, wall=0.0)
+    r = dict(unit=unit, status='ok', failures=[], undecided=[], functions={}, labels={}, meta=None, wall=0.0, auto_inlined=inline or [])
+    extract.AUTO_INLINE = list(inline or [])
     try:
         meta, path = generate(unit)
     except extract.ExtractError as e:
@@ -224,6 +225,16 @@ def process_unit(unit, seed=None, rlimit=None, reseed=0):
     vr = (v['json'] or {}).get('verification-results', {})
     r['verified'] = vr.get('verified')
     r['errors'] = vr.get('errors')
+    if inline is None:
+        # rule N14: a call to a small helper the templates do not know (added by a refactoring) is inlined at its call sites, once
+        unknown = set()
+        for d in v['diags']:
+            if d.get('level') == 'error':
+                m = re.search(r'no method named `(\w+)` found|cannot find function `(\w+)` in this scope|no function or associated item named `(\w+)` found', d.get('message', ''))
+                if m:
+                    unknown.add(next(g for g in m.groups() if g))
+        if unknown:
+            return process_unit(unit, seed=seed, rlimit=rlimit, reseed=reseed, inline=sorted(unknown))
     canary_failed = False
     for d in v['diags']:
         if d.get('level') != 'error':
